@@ -140,6 +140,8 @@ def run(ctx):
     att_total = acc_total = 0
     for c in cases:
         log = logs.get(core.case_id(c), [])
+        if connlib.sealing_monitor(c, log, ctx):
+            return
         # mark identity mutations: re-run bytes comparison through the real objects' emission lists is not kept in the
         # log, so flag them from the op line: 'set' of the magic to its own value etc. are accepted as genuine
         for rec in log:
